@@ -88,6 +88,34 @@ Theorem C18_errors_top : forall cls fs cs k x,
 Proof. exact gen_errors_top. Qed.
 Print Assumptions C18_errors_top.
 
+(* ---------- replace_subgroups: "swaps exactly the selected subgroup members" ---------- *)
+(* The full-strength statement (for every valid abstract selection, in every rendering, the result is the object with
+   exactly the selected paths assigned their members) is FALSE of the faithful model - see the three witnesses; the
+   correspondence run reports the same three behaviours on the implementation. *)
+Theorem C18_subgroups_refuted :
+  (exists T o p c e e', expected_sub T [(p, c)] o = Some e /\ rsub_gen T 64 o (flat1 p c) = Ok e' /\ e' <> e)
+  /\ (exists T o p c e', expected_sub T [(p, c)] o = None /\ rsub_gen T 64 o (flat1 p c) = Ok e')
+  /\ (exists T o p c e x, expected_sub T [(p, c)] o = Some e /\ rsub_gen T 64 o (flat1 p c) = Err (Raise x)).
+Proof. exact sub_refuted. Qed.
+Print Assumptions C18_subgroups_refuted.
+
+(* Proved: no selection = the very same object; ONE top-level selection on a class whose fields are all init fields
+   (all_init), naming an existing field: exactly that member is swapped for the one the choice denotes, or the call
+   raises when the choice denotes none.  Missing (sampled only): several / nested selections. *)
+Theorem C18_subgroups_nil_partial : forall T fuel o,
+  rsub_gen T (S fuel) o None = Ok o /\ rsub_gen T (S fuel) o (Some []) = Ok o.
+Proof. exact sub_nil. Qed.
+Print Assumptions C18_subgroups_nil_partial.
+
+Theorem C18_subgroups_single_partial : forall T fuel cls fs k c,
+  NoDup (map fname fs) -> all_init fs = true -> nodot k = true -> has_init_field fs k = true ->
+  match expected_sub T [([k], c)] (VDc cls fs) with
+  | Some e => rsub_gen T (S fuel) (VDc cls fs) (Some [(k, sel_of_choice c)]) = Ok e
+  | None => exists x, rsub_gen T (S fuel) (VDc cls fs) (Some [(k, sel_of_choice c)]) = Err (Raise x)
+  end.
+Proof. exact sub_single. Qed.
+Print Assumptions C18_subgroups_single_partial.
+
 (* non-vacuity: a three-level frozen-style tree, a change set with a nested change, a member swap and a dict value;
    its dotted rendering gives the same result; an init=False target raises *)
 Definition ex_inner : value := VDc "C2" [("lr", FInit, VLeaf "float" "0.5"); ("n", FNonInit "int" "3", VLeaf "int" "3")].
@@ -116,5 +144,7 @@ Example C18_nonvacuous :
   /\ untouched (assigns ex_obj ex_cs) ["a"; "name"] = true
   /\ must_raise ex_obj [("a", VDict [("b", VDict [("n", VLeaf "int" "4")])])] = true
   /\ replace_gen ex_obj [("a.b.n", VLeaf "int" "4")] = Err (Raise "ValueError")
-  /\ replace_gen ex_obj [("a.zz", VLeaf "int" "4")] = Err (Raise "TypeError").
+  /\ replace_gen ex_obj [("a.zz", VLeaf "int" "4")] = Err (Raise "TypeError")
+  /\ all_init [("ab", FInit, w_A "4"); ("k", FInit, VLeaf "int" "8")] = true
+  /\ rsub_gen w_T 1 (w_AB (w_A "4") "8") (Some [("ab", sel_of_choice (CKey "b"))]) = Ok (w_AB w_B "8").
 Proof. vm_compute. repeat split; reflexivity. Qed.
